@@ -9,6 +9,7 @@ InputRec ==
     CASE kind = "msg" -> Common @@ [w |-> Wire(kind, lay, post)]
       [] kind = "namew" -> Common @@ [w |-> Wire(kind, lay, post), cur |-> lay.cur]
       [] kind \in {"rdw", "optw"} -> Common @@ [w |-> SpecBytes(lay), cur |-> Len(NPrefix), len |-> lay.len]
+      [] kind = "optm" -> Common @@ [w |-> OptmBytes(lay), cur |-> OptmCur, len |-> Len(OptmRdata(lay))]
       [] OTHER -> Common @@ [s |-> Text(lay)]
 Emit == PrintT("BEH " \o ToJson(InputRec))
 =============================================================================
